@@ -219,6 +219,12 @@ ILLEGAL = [("@", 110), ("#", 110), ("$", 110), ("~", 110), ("`", 110), ("?", 110
            ('"\\u{0000041}"', 162), ('"\\u{00010FF}"', 162), ('"\\u{0000000}"', 162), ('"\\u{00000041}"', 162), ('"a\\u{0010FFFF}"', 162),
            ("'\\u{0000041}'", 162), ('"\\u{D800}"', 162), ('"\\u{DFFF}"', 162), ('"x\\u{dabc}y"', 162), ("'ab'", 163), ("''", 163), ("'€'", 163), ("'\\u{41}'", 162)]
 
+# lexemes with two independent defects: the value does not fit 128 bits and the suffix is not a type (the length is judged
+# first, E140); a leading zero or an empty digit string with a further defect behind it (E141)
+_BIG = ["340282366920938463463374607431768211456", "9" * 45, "0x1" + "0" * 32, "0x" + "f" * 33, "0b1" + "0" * 128, "0b" + "1" * 129]
+ILLEGAL += [(b + s, 140) for b in _BIG for s in ("u9", "_km", "i32x", "zz", "q", "_", "_u7", "i0")]
+ILLEGAL += [(z, 141) for z in ("007" + "9" * 40, "00" + "9" * 40 + "u9", "12q_" + "9" * 45, "0x" + "u9", "0b2" + "1" * 130, "0xg" + "0" * 40)]
+
 
 def run_case(case):
     kind = case[0]
@@ -337,7 +343,7 @@ def main(tier, seed, replay=None):
         for s in range(n):
             cases.append(("enum", name, alphabet, ml, s, n))
     cases += [("seq", seed, i) for i in range(1500 if q else 60000)]
-    cases += [("illegal", seed, i) for i in range(240 if q else 6000)]
+    cases += [("illegal", seed, i) for i in range(2 * len(ILLEGAL) if q else 6000)]
     rng = common.rng_for(seed, PROP)
     corpus = gen_mutate.corpus()
     for p, t in corpus:
